@@ -1,7 +1,7 @@
 \* C18 conn: liveness: every call whose response arrives or whose context is cancelled returns.
 CONSTANTS
   NC = 2
-  NN = 1
+  NN = 0
   MaxPN = 1
   MaxPC = 0
   UseWriteMu = TRUE
